@@ -88,6 +88,16 @@ Fixpoint count_wpwm (l : list op) : Z :=
   | _ :: r => count_wpwm r
   end.
 Definition attempted_last_resort (ops : list op) : bool := 2 <=? count_wpwm ops.
+(* the escape is only available AFTER the hand-back was tried: with a mode and a non-manual original one,
+   the restore must have asked the fan for the original mode *)
+Fixpoint count_wmode (l : list op) : Z :=
+  match l with
+  | [] => 0
+  | OpWMode _ :: r => 1 + count_wmode r
+  | _ :: r => count_wmode r
+  end.
+Definition mode_tried_if_needed (sup : bool) (orig : dev) (ops : list op) : bool :=
+  negb (sup && negb (mode orig =? manual)) || (1 <=? count_wmode ops).
 
 Definition sup (c : case) : bool := mode_supported (cb_fan (c_cb c)) (cb_enable_exists (c_cb c)).
 
@@ -134,7 +144,7 @@ Definition holdsb1 (c : case) : bool :=
   if o_kind c =? 2 then false
   else if o_kind c =? 1 then
     safeb (sup c) (c_orig c) (o_dev c)
-    || (attempted_last_resort (o_ops c) && o_lastw c)
+    || (attempted_last_resort (o_ops c) && mode_tried_if_needed (sup c) (c_orig c) (o_ops c) && o_lastw c)
   else true.
 
 (* "with the last good data": the sensor-monitor poll of a cycle whose sensor read was hit by a fault
@@ -172,7 +182,8 @@ Definition holdsb (c : case) : bool := holdsb1 c && regulates_freshb c && last_g
 Definition Holds1 (c : case) : Prop :=
   o_kind c <> 2 /\
   (o_kind c = 1 -> safe (sup c) (c_orig c) (o_dev c)
-                   \/ (attempted_last_resort (o_ops c) = true /\ o_lastw c = true)).
+                   \/ ((attempted_last_resort (o_ops c) = true /\ mode_tried_if_needed (sup c) (c_orig c) (o_ops c) = true)
+                       /\ o_lastw c = true)).
 
 Lemma holdsb1_spec c : holdsb1 c = true <-> Holds1 c.
 Proof.
@@ -182,7 +193,7 @@ Proof.
   - apply Z.eqb_neq in E2.
     destruct (o_kind c =? 1) eqn:E1.
     + apply Z.eqb_eq in E1.
-      rewrite orb_true_iff, andb_true_iff, safeb_spec. split.
+      rewrite orb_true_iff, !andb_true_iff, safeb_spec. split.
       * intros H. split; [exact E2|intros _; exact H].
       * intros [_ H]. apply H. exact E1.
     + apply Z.eqb_neq in E1. split; [|reflexivity].
